@@ -134,7 +134,13 @@ LogDomsQuick == {
   [m1 |-> <<3, 2>>, e1 |-> 1, m2 |-> <<7, 4>>, e2 |-> 1, neg |-> FALSE],
   [m1 |-> <<1, 1>>, e1 |-> -20, m2 |-> <<1, 1>>, e2 |-> 20, neg |-> FALSE],
   [m1 |-> <<5, 4>>, e1 |-> -7, m2 |-> <<3, 2>>, e2 |-> 12, neg |-> TRUE],
-  [m1 |-> <<1, 1>>, e1 |-> 2, m2 |-> <<3, 2>>, e2 |-> 2, neg |-> FALSE] }
+  [m1 |-> <<1, 1>>, e1 |-> 2, m2 |-> <<3, 2>>, e2 |-> 2, neg |-> FALSE],
+  \* several decades below 1 ending exactly on a power: the digit ticks of every decade must reach the next power
+  [m1 |-> <<1, 1>>, e1 |-> -3, m2 |-> <<1, 1>>, e2 |-> 0, neg |-> FALSE],
+  [m1 |-> <<1, 1>>, e1 |-> -5, m2 |-> <<1, 1>>, e2 |-> 2, neg |-> FALSE],
+  [m1 |-> <<1, 1>>, e1 |-> -4, m2 |-> <<1, 1>>, e2 |-> -1, neg |-> TRUE],
+  [m1 |-> <<5, 4>>, e1 |-> -6, m2 |-> <<1, 1>>, e2 |-> -2, neg |-> FALSE],
+  [m1 |-> <<1, 1>>, e1 |-> -1, m2 |-> <<1, 1>>, e2 |-> 8, neg |-> FALSE] }
 LogDomsThorough == LogDomsQuick \cup {
   [m1 |-> <<1, 1>>, e1 |-> -100, m2 |-> <<1, 1>>, e2 |-> 100, neg |-> FALSE],
   [m1 |-> <<3, 2>>, e1 |-> -100, m2 |-> <<3, 2>>, e2 |-> 99, neg |-> TRUE],
